@@ -12,6 +12,12 @@ Open Scope string_scope.
      equal length (`_retrieval_*_update_input_check` checked input.shape == target.shape, 1-D);
    - PeakSignalNoiseRatio: `target.min()/max()` raise only on an empty target, for which the sums bound
      before are bound to values equal to the old ones (adding an empty sum): value-preserving.
+   - R2Score, Covariance: in-place accumulation onto DATA-SHAPED fields (shape adopted from the first
+     batch; the translator emits `MayRaise "inplace:f"` before such a write).  R2Score adopts
+     sum_squared_obs / sum_obs / sum_squared_residual together from statistics of one common shape
+     (n_output,), and `sum_squared_obs +=` is the first write of the path: if it passes, the other two
+     have the same shapes on both sides.  Covariance: `ss_sum (d,d) += (d',d')` is the first write and
+     passes only if d' = d or d' = 1, for which `sum (d) += (d')` passes too.
    These are assumptions of the C14 theorem for these four classes (listed in the evidence); they are
    exercised by the C14 fault-injection stream.  A new call label after a write is NOT discharged. *)
 Definition commit_discharge : list (string * string) := [
@@ -19,7 +25,9 @@ Definition commit_discharge : list (string * string) := [
   ("RetrievalPrecision", "torch.cat"); ("RetrievalPrecision", "get_topk"); ("RetrievalPrecision", "batch_targets.gather");
   ("RetrievalRecall", "torch.cat"); ("RetrievalRecall", "get_topk"); ("RetrievalRecall", "batch_targets.gather");
   ("PeakSignalNoiseRatio", "target.min"); ("PeakSignalNoiseRatio", "torch.minimum");
-  ("PeakSignalNoiseRatio", "target.max"); ("PeakSignalNoiseRatio", "torch.maximum")].
+  ("PeakSignalNoiseRatio", "target.max"); ("PeakSignalNoiseRatio", "torch.maximum");
+  ("R2Score", "inplace:sum_obs"); ("R2Score", "inplace:sum_squared_residual");
+  ("Covariance", "inplace:sum")].
 
 (* C09/C10: attributes written outside __init__ that are functions of registered state (none today) *)
 Definition derived_attrs : list (string * fld) := [].
